@@ -163,6 +163,20 @@ def c08_exec(plan):
                     res = H[i][k]
                     if s.get("dst") is not None:
                         H[s["dst"]] = res
+            elif op == "setbit_oob":
+                # fault kind bad_call: a single-bit assignment at an index that addresses no bit of the
+                # vector (size, size+1, .., -(size+1), ..).  Refused or not, nothing may change.
+                i = pick(u[0])
+                if i is None:
+                    raise _Skip()
+                n = H[i].size
+                k = (n + u[1] % 3) if not (u[2] & 1) else -(n + 1 + u[1] % 3)
+                v = (u[2] >> 1) & 1
+                ev["a"] = {"h": i, "i": k, "v": v, "raised": None}
+                try:
+                    H[i][k] = v
+                except Exception as e:
+                    ev["a"]["raised"] = type(e).__name__
             elif op in ("setslice", "getslice"):
                 i = pick(u[0])
                 if i is None:
@@ -372,12 +386,14 @@ class C08(Machine):
     rule = ("one evaluation = one simulated run: 1-3 clients issue <=25 operations (construct/copy/bind, setitem by int/negative "
             "int/slice with any start,stop,step/index list with repeats, size change, zero/sign extension, augmented assignment, "
             "every binary/unary operator with Bits and int operands on either side, shifts, rotations, concatenation, split, "
-            "reads) on a shared heap of <=6 vectors (widths 0-6 densely, word boundaries up to 2048); after every step every "
+            "reads, and - fault kind bad_call - single-bit assignments at indices outside the vector) on a shared heap of <=6 vectors (widths 0-6 densely, word boundaries up to 2048); after every step every "
             "live handle must equal its reference cell and satisfy 0<=ival<=mask==2**size-1. distinct = distinct abstract traces "
             "((client, op, width class, index-expression class) in schedule order); non-trivial = the run contains a mutation of "
             "a vector that has another live alias, or a read/operator on a vector after a mutation of it by another client")
-    assumptions = ["no fault is injected (no atomicity is promised for a failing __setitem__); only operations valid for the "
-                   "current vector are issued (the executor concretises indices against the actual size)",
+    assumptions = ["the only fault kind is bad_call: a single-bit assignment at an index outside the vector (refused by the pinned "
+                   "tree with IndexError); refused or not, every vector must still equal its reference cell and satisfy ival<=mask. "
+                   "No atomicity is promised for a failing slice/list __setitem__, so all other operations are valid for the "
+                   "current vector (the executor concretises indices against the actual size)",
                    "aliasing of zero/sign extension results is observed, not demanded; index lists hold in-range non-negative indices",
                    "an int assigned to a stepped slice or an index list has exactly as many bits as the selection"]
 
@@ -411,7 +427,7 @@ class C08(Machine):
             elif r < 0.12:
                 pb.step(c, op=rng.choice(["copy", "bind", "bind"]), dst=dst, u=u)
             elif r < 0.20:
-                pb.step(c, op="setbit", u=u)
+                pb.step(c, op="setbit" if rng.random() < 0.85 else "setbit_oob", u=u)
             elif r < 0.34:
                 pb.step(c, op="setslice", u=u, rhs={"kind": rng.choice(["list", "bits", "int", "shortint", "handle"]), "seed": rng.getrandbits(2100)})
             elif r < 0.40:
@@ -472,6 +488,7 @@ class C08(Machine):
         hc = [None] * NH       # handle -> cell id (intended alias classes)
         nxt = [0]
         last_mut = {}          # cell -> client of the last mutation
+        nbad = [0, 0]          # rejected calls planned / actually refused by the library
         trace = []
         nontrivial = False
         steps = {s["id"]: s for s in plan["steps"]}
@@ -520,6 +537,12 @@ class C08(Machine):
                     i = a["i"] % n
                     cells[cell] = R.assign((v, n), [i], [a["v"]])
                     mutated = cell
+                    wcls = _wc(n) + ("neg" if a["i"] < 0 else "")
+                elif op == "setbit_oob":
+                    n = cells[hc[a["h"]]][1]
+                    nbad[0] += 1
+                    nbad[1] += 1 if a.get("raised") else 0
+                    probe("out_of_range_bit_assignment_" + ("refused" if a.get("raised") else "accepted_without_effect"))
                     wcls = _wc(n) + ("neg" if a["i"] < 0 else "")
                 elif op == "getbit":
                     v, n = cells[hc[a["h"]]]
@@ -691,7 +714,7 @@ class C08(Machine):
             if any(cells[x][1] > 64 for x in hc if x is not None):
                 probe("steps_with_width_gt64_vector")
         probe("steps_checked", len(trace))
-        extra = {"faults": {}, "fps": []}
+        extra = {"faults": {"bad_call": nbad} if nbad[0] else {}, "fps": []}
         return vs, probes, "|".join(trace), nontrivial, extra
 
 
